@@ -20,7 +20,7 @@ import hashlib
 from fractions import Fraction
 
 from ..affine import Lin
-from ..facts import abs_range, atoms, call_is, cut_normalise, equality_atoms, meth_is, strip
+from ..facts import abs_range, atoms, call_is, cut_normalise, equality_atoms, meth_is, strip, simplify
 from ..intervals import iv_of
 from ..model import AnalysisError
 from ..seq import Byte, Const, Digest, Field, Layouts, Opaque, Zeros, explode, pad16, show_layout, total
@@ -90,6 +90,12 @@ def run(ctx):
     if not ctx.ob("C02.e", ENC, not special, "the packet does not depend on a test of the command (no padding amount / length is special-cased)",
                   func=ENC, file=file, construct="conditional on the command", detail={"condition": show(special[0][1]) if special else None},
                   fail=f"encode treats some commands differently: `{show(special[0][1])[:80] if special else ''}`"):
+        return
+    from ..shared import held_buffer_mutations
+    held = held_buffer_mutations(prog, enc)
+    if not ctx.ob("C02.e", ENC, not held, "every packet is built in fresh buffers (nothing of one packet - id, length, timestamp - is left in an object the next call reuses)",
+                  func=ENC, file=file, construct="in-place store into a kept buffer", detail={"stores": held[:3]},
+                  fail=f"encode patches a buffer kept in `{held[0][0] if held else ''}` in place: bytes written for one packet (e.g. another device's id) reappear in the next one"):
         return
     lay = L.layout(t)
     ctx.count("encoders")
@@ -190,6 +196,7 @@ def run(ctx):
         if node2 is None:
             continue
         facts = atoms(pc2)
+        ret = simplify(ret, set(facts))          # gates the path condition settles (values merged after a validation step)
         ret = cut_normalise(ret, ("param", dp), facts)
         # ciphertext range
         calls = [x for x in subterms(ret) if call_is(x, f"{SEC}.decrypt_aes")]
@@ -261,6 +268,34 @@ def run(ctx):
                 out = []
                 for x in cx[2]:
                     out += flat(x, tr)
+                return out
+            if cx[0] == "cmp" and cx[1] in ("is not", "!=", "is", "==") and strip(cx[3]) == ("const", None) and strip(cx[2])[0] == "ite" \
+                    and ((cx[1] in ("is not", "!=")) == tr):
+                # `problem is not None` for a message chain: as below, with "is None" in the place of "is falsy"
+                def chain(t):
+                    t = strip(t)
+                    out = []
+                    for cond_tr, leaf in ((True, strip(t[2])), (False, strip(t[3]))):
+                        if leaf == ("const", None):
+                            continue
+                        if leaf[0] == "ite":
+                            out += (flat(t[1], cond_tr) if cond_tr else []) + chain(leaf) if cond_tr else chain(leaf)
+                        else:
+                            out += flat(t[1], cond_tr)
+                    return out
+                return chain(cx[2])
+            if cx[0] == "ite" and tr and all(is_const(strip(leaf)) or strip(leaf)[0] in ("ite", "fstr") for leaf in (cx[2], cx[3])):
+                # truth of a "problem message" chain: msg1 if c1 else (msg2 if c2 else None) - it fires when some ci with a truthy message holds
+                out = []
+                for cond_tr, leaf in ((True, strip(cx[2])), (False, strip(cx[3]))):
+                    if is_const(leaf) and not leaf[1]:
+                        continue
+                    if cond_tr:
+                        out += flat(cx[1], True)
+                    elif leaf[0] == "ite":
+                        out += flat(leaf, True)
+                    else:
+                        out += flat(cx[1], False)
                 return out
             return [(cx, tr)]
         verdicts = []
